@@ -3,8 +3,9 @@ import SqlObjVerif.Extracted.Expr
 # C03 — model of sqlbuilder's expression construction and rendering
 
 Three layers:
-* `NumE` / `BoolE` — the well-typed expression tree the Python code *means* (source trees);
-  `evalN` / `evalB` give its value on a row under SQL three-valued logic.
+* `E s` (`NumE` / `BoolE` / `Items`) — the well-typed expression tree the Python code *means*
+  (source trees; `b2i` = a boolean subexpression used as a number); `eval` (`evalN` / `evalB`) gives
+  its value on a row under SQL three-valued logic.
 * `Node` — the object graph the overloaded operators and builder functions construct
   (`SQLOp`, `SQLModulo`, `SQLPrefix`, `Field`, Python ints, `None`, Python lists); `buildN` / `buildB`
   mirror the constructors (using the tables in `Extracted/Expr.lean`), `render d` mirrors
@@ -333,29 +334,47 @@ inductive CmpOp where
   | lt | le | gt | ge | eq | ne
 deriving DecidableEq, Repr
 
-inductive NumE where
-  | col (c : Nat)
-  | const (i : Int)
-  | ar (o : ArOp) (l r : NumE)     -- `l + r`, `l - r`, `l * r`, `l / r`, `l % r`
-  | neg (x : NumE)                 -- `-x`
-  | pos (x : NumE)                 -- `+x`
-deriving Repr
+/-- sorts of source trees: numeric expressions, boolean expressions, IN-lists -/
+inductive Srt where
+  | num | bool | items
+deriving DecidableEq, Repr
 
-inductive BoolE where
-  | cmp (o : CmpOp) (l r : NumE)   -- `l < r` … `l == r`, `l != r`
-  | andOp (l r : BoolE)            -- `l & r`
-  | orOp (l r : BoolE)             -- `l | r`
-  | andFn (l r : BoolE)            -- `AND(l, r)`  (n-ary calls: `andN`)
-  | orFn (l r : BoolE)             -- `OR(l, r)`
-  | notOp (x : BoolE)              -- `~x`
-  | notFn (x : BoolE)              -- `NOT(x)`
-  | isin (x : NumE) (items : List (Option NumE))    -- `IN(x, [..])`, `None` items allowed
-  | notin (x : NumE) (items : List (Option NumE))   -- `NOTIN(x, [..])`
-  | isnull (x : NumE)              -- `ISNULL(x)`
-  | isnotnull (x : NumE)           -- `ISNOTNULL(x)`
-  | eqNone (x : NumE)              -- `x == None`
-  | neNone (x : NumE)              -- `x != None`
-deriving Repr
+/-- Well-typed source trees, indexed by their sort.  `b2i` lets a boolean expression stand where a
+    number is expected (Python builds it happily: `(a == None) == (b == None)`,
+    `(a == None) + (b == None) >= 1`); SQL reads it as 1 / 0 / NULL. -/
+inductive E : Srt → Type where
+  | col (c : Nat) : E .num
+  | const (i : Int) : E .num
+  | ar (o : ArOp) (l r : E .num) : E .num      -- `l + r`, `l - r`, `l * r`, `l / r`, `l % r`
+  | neg (x : E .num) : E .num                  -- `-x`
+  | pos (x : E .num) : E .num                  -- `+x`
+  | b2i (b : E .bool) : E .num                 -- a boolean expression used as a number
+  | cmp (o : CmpOp) (l r : E .num) : E .bool   -- `l < r` … `l == r`, `l != r`
+  | andOp (l r : E .bool) : E .bool            -- `l & r`
+  | orOp (l r : E .bool) : E .bool             -- `l | r`
+  | andFn (l r : E .bool) : E .bool            -- `AND(l, r)`  (n-ary calls: `andN`)
+  | orFn (l r : E .bool) : E .bool             -- `OR(l, r)`
+  | notOp (x : E .bool) : E .bool              -- `~x`
+  | notFn (x : E .bool) : E .bool              -- `NOT(x)`
+  | isin (x : E .num) (l : E .items) : E .bool     -- `IN(x, [..])`
+  | notin (x : E .num) (l : E .items) : E .bool    -- `NOTIN(x, [..])`
+  | isnull (x : E .num) : E .bool              -- `ISNULL(x)`
+  | isnotnull (x : E .num) : E .bool           -- `ISNOTNULL(x)`
+  | eqNone (x : E .num) : E .bool              -- `x == None`
+  | neNone (x : E .num) : E .bool              -- `x != None`
+  | inil : E .items                            -- `[]`
+  | inull (t : E .items) : E .items            -- `[None] + t`
+  | icons (h : E .num) (t : E .items) : E .items   -- `[h] + t`
+
+abbrev NumE := E .num
+abbrev BoolE := E .bool
+abbrev Items := E .items
+
+/-- a Python list of numeric expressions and `None`s -/
+def items : List (Option NumE) → Items
+  | [] => .inil
+  | none :: t => .inull (items t)
+  | some e :: t => .icons e (items t)
 
 /-- right fold `mk e₀ (mk e₁ (… eₙ))` -/
 def foldR (mk : BoolE → BoolE → BoolE) (e : BoolE) : List BoolE → BoolE
@@ -412,31 +431,45 @@ def all3 (xs : List (Option Bool)) : Option Bool :=
 def any3 (xs : List (Option Bool)) : Option Bool :=
   if some true ∈ xs then some true else if none ∈ xs then none else some false
 
-def evalN (r : Row) : NumE → Option Int
-  | .col c => r c
-  | .const i => some i
-  | .ar o l x => arSem o (evalN r l) (evalN r x)
-  | .neg x => (evalN r x).map (fun a => -a)
-  | .pos x => evalN r x
+/-- values of the three sorts -/
+@[reducible] def Val : Srt → Type
+  | .num => Option Int
+  | .bool => Option Bool
+  | .items => List (Option Int)
 
-def evalItem (r : Row) : Option NumE → Option Int
-  | none => none
-  | some e => evalN r e
+/-- the value of a source tree on a row; a boolean used as a number is 1 / 0 / NULL -/
+def eval (r : Row) : {s : Srt} → E s → Val s
+  | _, .col c => r c
+  | _, .const i => some i
+  | _, .ar o l x => arSem o (eval r l) (eval r x)
+  | _, .neg x => (eval r x : Option Int).map (fun a => -a)
+  | _, .pos x => eval r x
+  | _, .b2i b => (eval r b : Option Bool).map b2i
+  | _, .cmp o l x => cmpSem o (eval r l) (eval r x)
+  | _, .andOp l x => and3 (eval r l) (eval r x)
+  | _, .andFn l x => and3 (eval r l) (eval r x)
+  | _, .orOp l x => or3 (eval r l) (eval r x)
+  | _, .orFn l x => or3 (eval r l) (eval r x)
+  | _, .notOp x => not3 (eval r x)
+  | _, .notFn x => not3 (eval r x)
+  | _, .isin x l => inSpec (eval r x) (eval r l)
+  | _, .notin x l => not3 (inSpec (eval r x) (eval r l))
+  | _, .isnull x => some (eval r x : Option Int).isNone
+  | _, .isnotnull x => some (eval r x : Option Int).isSome
+  | _, .eqNone x => some (eval r x : Option Int).isNone
+  | _, .neNone x => some (eval r x : Option Int).isSome
+  | _, .inil => ([] : List (Option Int))
+  | _, .inull t => (none : Option Int) :: (eval r t : List (Option Int))
+  | _, .icons h t => (eval r h : Option Int) :: (eval r t : List (Option Int))
 
-def evalB (r : Row) : BoolE → Option Bool
-  | .cmp o l x => cmpSem o (evalN r l) (evalN r x)
-  | .andOp l x => and3 (evalB r l) (evalB r x)
-  | .andFn l x => and3 (evalB r l) (evalB r x)
-  | .orOp l x => or3 (evalB r l) (evalB r x)
-  | .orFn l x => or3 (evalB r l) (evalB r x)
-  | .notOp x => not3 (evalB r x)
-  | .notFn x => not3 (evalB r x)
-  | .isin x items => inSpec (evalN r x) (items.map (evalItem r))
-  | .notin x items => not3 (inSpec (evalN r x) (items.map (evalItem r)))
-  | .isnull x => some (evalN r x).isNone
-  | .isnotnull x => some (evalN r x).isSome
-  | .eqNone x => some (evalN r x).isNone
-  | .neNone x => some (evalN r x).isSome
+abbrev evalN (r : Row) (e : NumE) : Option Int := eval r e
+abbrev evalB (r : Row) (e : BoolE) : Option Bool := eval r e
+
+/-- how a source value appears to the untyped SQLite-style evaluator -/
+def embed : (s : Srt) → Val s → Sem
+  | .num, x => .v x
+  | .bool, x => .v (x.map b2i)
+  | .items, l => .l l
 
 /-! ### the constructors: Python operators and builder functions -/
 
@@ -460,20 +493,6 @@ def arRov : ArOp → OvBin
   | .add => Extracted.radd | .sub => Extracted.rsub | .mul => Extracted.rmul | .div => Extracted.rdiv
   | .mod => ⟨Extracted.moduloOp, true⟩
 
-/-- `l <op> r` in Python.  `int <op> expr` is dispatched by Python to the reflected method of `expr`;
-    two plain ints never reach sqlbuilder (the harness then calls the node constructor directly), and
-    `%` always stands for a `SQLModulo(l, r)` node (`int % expr` would be `MOD(…)` via `__rmod__`,
-    which is outside the fragment). -/
-def buildN : NumE → Node
-  | .col c => .field c
-  | .const i => .int i
-  | .ar o l r =>
-    if o = .mod then .modulo (buildN l) (buildN r)
-    else if isConst l && !isConst r then applyOv (arRov o) (buildN r) (buildN l)
-    else applyOv (arOv o) (buildN l) (buildN r)
-  | .neg x => .prefix Extracted.negOp (buildN x)
-  | .pos x => .prefix Extracted.posOp (buildN x)
-
 def CmpOp.flip : CmpOp → CmpOp
   | .lt => .gt | .le => .ge | .gt => .lt | .ge => .le | .eq => .eq | .ne => .ne
 
@@ -483,9 +502,17 @@ def cmpOv (field : Bool) : CmpOp → OvBin
   | .eq => if field then Extracted.fieldEq else Extracted.exprEq
   | .ne => if field then Extracted.fieldNe else Extracted.exprNe
 
+/-- the boolean expression is built as an instance of exactly `SQLOp` (not `SQLPrefix`) -/
+def boolIsPlainOp : BoolE → Bool
+  | .notOp _ => false
+  | .notFn _ => false
+  | .notin _ _ => !Extracted.notinNegates
+  | _ => true
+
 /-- the operand is an instance of exactly `SQLOp` -/
 def isPlainOp : NumE → Bool
   | .ar o _ _ => o != .mod
+  | .b2i b => boolIsPlainOp b
   | _ => false
 
 /-- the operand is a `SQLModulo` (a subclass of `SQLOp`) -/
@@ -498,39 +525,54 @@ def isModulo : NumE → Bool
 def cmpReflected (l r : NumE) : Bool :=
   (isConst l && !isConst r) || (isPlainOp l && isModulo r)
 
-def buildItems : List (Option NumE) → Node
-  | [] => .lnil
-  | none :: t => .lcons .none (buildItems t)
-  | some e :: t => .lcons (buildN e) (buildItems t)
-
 def noneRule (rule : NoneRule) (ov : OvBin) (a : Node) : Node :=
   match rule with
   | .isNull => .sqlop Extracted.isnullOp a .none
   | .isNotNull => .sqlop Extracted.isnotnullOp a .none
   | .fallThrough => applyOv ov a .none
 
-def buildB : BoolE → Node
-  | .cmp o l r =>
-    if cmpReflected l r then applyOv (cmpOv (isCol r) o.flip) (buildN r) (buildN l)
-    else applyOv (cmpOv (isCol l) o) (buildN l) (buildN r)
-  | .andOp l r => applyOv Extracted.andOp (buildB l) (buildB r)
-  | .orOp l r => applyOv Extracted.orOp (buildB l) (buildB r)
-  | .andFn l r => .sqlop Extracted.andFn (buildB l) (buildB r)
-  | .orFn l r => .sqlop Extracted.orFn (buildB l) (buildB r)
-  | .notOp x => .prefix Extracted.invertOp (buildB x)
-  | .notFn x => .prefix Extracted.notFn (buildB x)
-  | .isin x items => .sqlin (buildN x) (buildItems items)
-  | .notin x items =>
-    if Extracted.notinNegates then .prefix Extracted.notFn (.sqlin (buildN x) (buildItems items))
-    else .sqlin (buildN x) (buildItems items)
-  | .isnull x => .sqlop Extracted.isnullOp (buildN x) .none
-  | .isnotnull x => .sqlop Extracted.isnotnullOp (buildN x) .none
-  | .eqNone x =>
-    if isCol x then noneRule Extracted.fieldEqNone Extracted.fieldEq (buildN x)
-    else noneRule Extracted.exprEqNone Extracted.exprEq (buildN x)
-  | .neNone x =>
-    if isCol x then noneRule Extracted.fieldNeNone Extracted.fieldNe (buildN x)
-    else noneRule Extracted.exprNeNone Extracted.exprNe (buildN x)
+/-- The object graph the Python expression constructs.
+    `l <op> r`: `int <op> expr` is dispatched by Python to the reflected method of `expr`; two plain
+    ints never reach sqlbuilder (the harness then calls the node constructor directly), and `%` always
+    stands for a `SQLModulo(l, r)` node (`int % expr` would be `MOD(…)` via `__rmod__`, which is
+    outside the fragment).  A boolean expression used as a number is the same object. -/
+def build : {s : Srt} → E s → Node
+  | _, .col c => .field c
+  | _, .const i => .int i
+  | _, .ar o l r =>
+    if o = .mod then .modulo (build l) (build r)
+    else if isConst l && !isConst r then applyOv (arRov o) (build r) (build l)
+    else applyOv (arOv o) (build l) (build r)
+  | _, .neg x => .prefix Extracted.negOp (build x)
+  | _, .pos x => .prefix Extracted.posOp (build x)
+  | _, .b2i b => build b
+  | _, .cmp o l r =>
+    if cmpReflected l r then applyOv (cmpOv (isCol r) o.flip) (build r) (build l)
+    else applyOv (cmpOv (isCol l) o) (build l) (build r)
+  | _, .andOp l r => applyOv Extracted.andOp (build l) (build r)
+  | _, .orOp l r => applyOv Extracted.orOp (build l) (build r)
+  | _, .andFn l r => .sqlop Extracted.andFn (build l) (build r)
+  | _, .orFn l r => .sqlop Extracted.orFn (build l) (build r)
+  | _, .notOp x => .prefix Extracted.invertOp (build x)
+  | _, .notFn x => .prefix Extracted.notFn (build x)
+  | _, .isin x l => .sqlin (build x) (build l)
+  | _, .notin x l =>
+    if Extracted.notinNegates then .prefix Extracted.notFn (.sqlin (build x) (build l))
+    else .sqlin (build x) (build l)
+  | _, .isnull x => .sqlop Extracted.isnullOp (build x) .none
+  | _, .isnotnull x => .sqlop Extracted.isnotnullOp (build x) .none
+  | _, .eqNone x =>
+    if isCol x then noneRule Extracted.fieldEqNone Extracted.fieldEq (build x)
+    else noneRule Extracted.exprEqNone Extracted.exprEq (build x)
+  | _, .neNone x =>
+    if isCol x then noneRule Extracted.fieldNeNone Extracted.fieldNe (build x)
+    else noneRule Extracted.exprNeNone Extracted.exprNe (build x)
+  | _, .inil => .lnil
+  | _, .inull t => .lcons .none (build t)
+  | _, .icons h t => .lcons (build h) (build t)
+
+abbrev buildN (e : NumE) : Node := build e
+abbrev buildB (e : BoolE) : Node := build e
 
 /-- the filter `Cls.select(e)` sends, read back by the reference parser with binding powers `P`,
     selects row `r` -/
